@@ -110,22 +110,32 @@ class C03(InterpProp):
             res.violations.append('step %d: executed code %s differs from what the MacroStep says %s'
                                   % (k, oracles.exec_effects(r['eff'])[:8], oracles.replay_effects(step)[:8]))
         active = set(info['cfg0'])
-        depth = oracles.tree(sc).depth_for
+        tr = oracles.tree(sc)
+        dcache, desc_of, anc_of = {}, {}, {}
+
+        def depth(n):
+            if n not in dcache:
+                dcache[n] = tr.depth_for(n)
+            return dcache[n]
         for m in step['steps']:
             ex, en = m['exited'], m['entered']
             for i, a in enumerate(ex):
                 if a not in active:
                     res.violations.append('step %d: exit of inactive state %s' % (k, a))
+                if a not in desc_of and ex[i + 1:]:
+                    desc_of[a] = set(tr.descendants_for(a))
                 for b in ex[i + 1:]:
-                    if b in oracles.tree(sc).descendants_for(a):
+                    if b in desc_of[a]:
                         res.violations.append('step %d: %s exited before its descendant %s' % (k, a, b))
                     if depth(a) == depth(b) and not a < b and m['transition'] is not None:
                         res.violations.append('step %d: same-depth exits not in name order: %s' % (k, ex))
                     if depth(a) < depth(b) and m['transition'] is not None:
                         res.violations.append('step %d: exits not innermost-first: %s' % (k, ex))
             for i, a in enumerate(en):
+                if a not in anc_of and en[i + 1:]:
+                    anc_of[a] = set(tr.ancestors_for(a))
                 for b in en[i + 1:]:
-                    if b in oracles.tree(sc).ancestors_for(a):
+                    if b in anc_of[a]:
                         res.violations.append('step %d: %s entered before its ancestor %s' % (k, a, b))
                     if sc.parent_for(a) == sc.parent_for(b) and not a < b:
                         res.violations.append('step %d: sibling entries not in name order: %s' % (k, en))
